@@ -277,7 +277,7 @@ def gen_worlds(rng, tier):
             k += 1
     worlds.append(gen_world(rng, tier, "sym-pair", "0ary", "one"))
     worlds.append(gen_world(rng, tier, "forall"))
-    for _ in range(6 if tier == "quick" else 150):
+    for _ in range(6 if tier == "quick" else 70):
         worlds.append(gen_world(rng, tier))
     return worlds
 
